@@ -729,18 +729,18 @@ package mq
 //@ func (*Subscribe).AddFilters
 //@   inline
 //@   ensures len(p.filters) == old(len(p.filters)) + len(v)                                                    #C12
-//@   ensures forall k in 0..len(v): p.filters[old(len(p.filters)) + k] == v[k]                                 #C12
+//@   ensures forall k in 0..len(v): p.filters[old(len(p.filters)) + k] == old(v[k])                                 #C12
 //@   ensures forall k in 0..old(len(p.filters)): p.filters[k] == old(p.filters[k])                             #C12
 
 //@ func (*UserProperties).AddUserProp
 //@   inline
 //@   requires len(kvPair) % 2 == 0
 //@   ensures len(*p) == old(len(*p)) + len(kvPair) / 2                                                          #C12
-//@   ensures forall k in 0..len(kvPair)/2: (*p)[old(len(*p)) + k][0] == kvPair[2*k] && (*p)[old(len(*p)) + k][1] == kvPair[2*k+1]   #C12
+//@   ensures forall k in 0..len(kvPair)/2: (*p)[old(len(*p)) + k][0] == old(kvPair[2*k]) && (*p)[old(len(*p)) + k][1] == old(kvPair[2*k+1])   #C12
 //@   ensures forall k in 0..old(len(*p)): (*p)[k] == old((*p)[k])                                               #C12
 //@   loop 0:
 //@     invariant 0 <= i && i <= len(kvPair) && i % 2 == 0
 //@     invariant len(*p) == old(len(*p)) + i / 2                                                               #C12
-//@     invariant forall k in 0..i/2: (*p)[old(len(*p)) + k][0] == kvPair[2*k] && (*p)[old(len(*p)) + k][1] == kvPair[2*k+1]   #C12
+//@     invariant forall k in 0..i/2: (*p)[old(len(*p)) + k][0] == old(kvPair[2*k]) && (*p)[old(len(*p)) + k][1] == old(kvPair[2*k+1])   #C12
 //@     invariant forall k in 0..old(len(*p)): (*p)[k] == old((*p)[k])                                          #C12
 //@     decreases len(kvPair) - i
